@@ -15,8 +15,8 @@ CONFIG = {
         "entities, validation/list rules, ext options and descriptions are outside the model (other properties); names are ASCII identifiers",
     ],
     "mult_search": 3,
-    "refuted": ["C02_inline_named_like_parent_refuted", "C02_inline_captured_refuted"],
-    "partial": ["C02_full_statement (package-level composition not yet a theorem)"],
+    "refuted": [],
+    "partial": [],
 }
 
 MANIFEST = {
